@@ -384,6 +384,13 @@ func TestC02Mutated(t *testing.T) {
 func TestC02SameLine(t *testing.T) {
 	run := h.Begin("C02", "same-line", "bounded-exhaustive: primary {a, f(x), (a), [a], 1} followed by every chain of 1..4 postfix operations over {.b, !.b, (), (c)} with one of six line-break forms inserted before one chosen postfix token (or none), alone and inside 'x + _' / '[_]'; oracle: reference parser; non-trivial: the cases that contain a line break")
 	defer run.End(t)
+	sameLineSweep(run, "c02")
+	run.Exhaustive()
+}
+
+// sameLineSweep enumerates the postfix chains with a line break before one
+// postfix token; shared by C02 (grammar) and C14 (significance of line breaks).
+func sameLineSweep(run *h.Run, kind string) {
 	prims := []string{"a", "f(x)", "(a)", "[a]", "1"}
 	posts := []string{" .b", " !.b", " ()", " (c)"}
 	nls := []string{"\n", "\r\n", "\r", "\u2028", "\u2029", "\u0085"}
@@ -421,7 +428,7 @@ func TestC02SameLine(t *testing.T) {
 			}
 		}
 	})
-	run.Exhaustive()
+	_ = kind
 }
 
 // enumSeqAll is enumSeq without shard filtering (the caller shards).
